@@ -19,6 +19,7 @@ import (
 	randv2 "math/rand/v2"
 	"os"
 	"runtime"
+	"runtime/pprof"
 	"sort"
 	"strings"
 	"sync"
@@ -274,6 +275,10 @@ func (r *Run) finish(v *Violation) {
 	r.mu.Unlock()
 	b, _ := json.Marshal(res)
 	os.Stdout.Write(append(append([]byte("RESULT "), b...), '\n'))
+	if profFile != nil {
+		pprof.StopCPUProfile()
+		profFile.Close()
+	}
 	os.Exit(0)
 }
 
@@ -309,6 +314,7 @@ type scheduler struct {
 
 var sched scheduler
 var emitPlan bool
+var profFile *os.File
 
 const (
 	kindPost  = 0
@@ -548,6 +554,10 @@ func Main(t *testing.T) {
 		b, _ := json.Marshal(plan)
 		fmt.Println("PLAN " + string(b))
 		os.Exit(0)
+	}
+	if pf := os.Getenv("GOSIM_CPUPROF"); pf != "" {
+		profFile, _ = os.Create(pf)
+		pprof.StartCPUProfile(profFile)
 	}
 	runtime.GosimAllBlockingIdle()
 	// crypto/rand (chunk encryption keys, key generation, kademlia random subsets)
